@@ -218,6 +218,16 @@ def _net_queries(interacting):
               "mean_node_weight", "adjacency", "node_weights", "directed"):
         q["." + a] = attr(a)
     q["find_link_attribute(la)"] = call("find_link_attribute", "la")
+
+    def nsi_ec(o, m):
+        # defined (unique leading eigenvector) on connected undirected
+        # networks only
+        A = np.asarray(m["A"])
+        if m.get("directed") or len(A) < 3 or not G.is_connected(
+                ((A + A.T) != 0).astype(int)):
+            return None
+        return o.nsi_eigenvector_centrality()
+    q["nsi_eigenvector_centrality"] = nsi_ec
     if interacting:
         def grp(m):
             n = m["n"]
@@ -653,6 +663,7 @@ class RPFamily(Family):
         self.mutators = {"set_" + k: (lambda k: lambda o, m, a:
                                       self.m_set(o, m, k, a))(k)
                          for k in RP_MODES}
+        self.mutators["assign_embedding"] = self.m_embedding
 
     def _val(self, m, mode, a):
         n = m["nstates"]
@@ -693,6 +704,20 @@ class RPFamily(Family):
         getattr(o, RP_SETTERS[mode])(v)
         m["mode"], m["val"] = mode, v
 
+    def m_embedding(self, o, m, a):
+        """Another trajectory is assigned through the public `embedding`
+        attribute and the plot re-thresholded with its current setting: the
+        object is then the plot of the new series."""
+        # a cyclic shift of the series followed by a reflection: another
+        # trajectory with the same standard deviation (set_fixed_threshold_std
+        # reads the std of `time_series`, which an assigned embedding does
+        # not replace)
+        x2 = -np.roll(m["x"], 1 + int(a * 10) % 3) + 2 * m["x"].mean()
+        m2 = dict(m, x=x2)
+        o.embedding = np.array(self.build(m2).embedding)
+        m["x"] = x2
+        getattr(o, RP_SETTERS[m["mode"]])(m["val"])
+
 
 class SeqRPFamily(Family):
     """RecurrencePlot in the memory-saving sequential mode (sparse_rqa=True):
@@ -725,12 +750,69 @@ class SeqRPFamily(Family):
         m["val"] = 0.25 + 2.0 * a
 
 
+class CrossRPFamily(Family):
+    """CrossRecurrencePlot: threshold / rate setters and the public
+    x_embedded / y_embedded attributes (distance matrices are memoised)."""
+    name = "CrossRecurrencePlot"
+
+    def __init__(self):
+        names = ["recurrence_matrix", "cross_recurrence_rate",
+                 "manhattan_distance_matrix", "euclidean_distance_matrix",
+                 "supremum_distance_matrix", "balance"]
+        self.queries = {n: call(n) for n in names}
+        self.queries["distance_matrix"] = \
+            lambda o, m: o.distance_matrix(m["metric"])
+        self.tol = {}
+        self.mutators = {"set_threshold": self.m_thr,
+                         "set_recurrence_rate": self.m_rate,
+                         "assign_x_embedded": self.m_x,
+                         "assign_y_embedded": self.m_y}
+
+    def init_model(self, case):
+        return {"x": np.array(case["x"], dtype=float),
+                "y": np.array(case["y"], dtype=float),
+                "metric": case["metric"], "mode": "threshold",
+                "val": 0.25 + 2.0 * case["val"]}
+
+    def build(self, m):
+        from pyunicorn.timeseries import CrossRecurrencePlot
+        return CrossRecurrencePlot(m["x"].copy(), m["y"].copy(),
+                                   metric=m["metric"], normalize=False,
+                                   silence_level=3, **{m["mode"]: m["val"]})
+
+    def _again(self, o, m):
+        if m["mode"] == "threshold":
+            o.set_fixed_threshold(m["val"])
+        else:
+            o.set_fixed_recurrence_rate(m["val"])
+
+    def m_thr(self, o, m, a):
+        m["mode"], m["val"] = "threshold", 0.25 + 2.0 * a
+        self._again(o, m)
+
+    def m_rate(self, o, m, a):
+        m["mode"], m["val"] = "recurrence_rate", min(0.95, max(0.05, a))
+        self._again(o, m)
+
+    def m_x(self, o, m, a):
+        x2 = np.roll(m["x"], 1 + int(a * 10) % 3) * (1.0 + int(a * 20) % 2)
+        o.x_embedded = np.array(self.build(dict(m, x=x2)).x_embedded)
+        m["x"] = x2
+        self._again(o, m)
+
+    def m_y(self, o, m, a):
+        y2 = np.roll(m["y"], 1 + int(a * 10) % 3) * (1.0 + int(a * 20) % 2)
+        o.y_embedded = np.array(self.build(dict(m, y=y2)).y_embedded)
+        m["y"] = y2
+        self._again(o, m)
+
+
 class JointFamily(RPFamily):
     def __init__(self):
         RPFamily.__init__(self, "RecurrenceNetwork")
         self.kind = self.name = "JointRecurrenceNetwork"
         for k in ("set_local_recurrence_rate",
-                  "set_adaptive_neighborhood_size"):
+                  "set_adaptive_neighborhood_size", "assign_embedding"):
             self.mutators.pop(k, None)
         self.queries.pop("distance_matrix", None)
         self.queries.pop("white_vertline_dist", None)
@@ -957,6 +1039,7 @@ def fam(name):
             "RecurrenceNetwork": lambda: RPFamily("RecurrenceNetwork"),
             "JointRecurrenceNetwork": JointFamily,
             "SequentialRecurrencePlot": SeqRPFamily,
+            "CrossRecurrencePlot": CrossRPFamily,
             "ResNetwork": ResFamily,
             "Surrogates": SurFamily,
             "ClimateData": DataFamily,
@@ -1115,6 +1198,8 @@ def rp_cases(draw, kind):
     a = st.integers(0, 19).map(lambda k: k / 20.0 + 0.02)
     modes = RP_MODES if kind != "JointRecurrenceNetwork" else RP_MODES[:3]
     margs = {"set_" + k: a for k in modes}
+    if kind != "JointRecurrenceNetwork":
+        margs["assign_embedding"] = a
     c = {"family": kind, "x": x,
          "metric": draw(st.sampled_from(["supremum", "euclidean",
                                          "manhattan"])),
@@ -1127,6 +1212,23 @@ def rp_cases(draw, kind):
     elif draw(st.integers(0, 3)) == 0:
         c["dim"], c["tau"] = 2, draw(st.integers(1, 2))
     return c
+
+
+@st.composite
+def cross_rp_cases(draw):
+    n = draw(st.integers(5, 12))
+    k = draw(st.integers(4, 10))
+    vals = st.integers(-12, 12).map(lambda v: v / 4.0)
+    a = st.integers(0, 19).map(lambda v: v / 20.0 + 0.02)
+    margs = {"set_threshold": a, "set_recurrence_rate": a,
+             "assign_x_embedded": a, "assign_y_embedded": a}
+    return {"family": "CrossRecurrencePlot",
+            "x": draw(st.lists(vals, min_size=n, max_size=n)),
+            "y": draw(st.lists(vals, min_size=k, max_size=k)),
+            "metric": draw(st.sampled_from(["supremum", "euclidean",
+                                            "manhattan"])),
+            "val": draw(a),
+            "ops": draw(ops_strategy("CrossRecurrencePlot", margs))}
 
 
 @st.composite
@@ -1241,6 +1343,7 @@ SUBCHECKS = [
     _sub("joint_recurrence_network",
          lambda: rp_cases("JointRecurrenceNetwork"), (3, 80), (8, 800)),
     _sub("sequential_recurrence_plot", seq_rp_cases, (2, 80), (4, 800)),
+    _sub("cross_recurrence_plot", cross_rp_cases, (2, 80), (4, 800)),
     _sub("resistive", res_cases, (2, 80), (8, 800)),
     _sub("surrogates", sur_cases, (4, 150), (8, 2000)),
     _sub("climate_data", data_cases, (2, 100), (4, 1500)),
@@ -1324,7 +1427,18 @@ def _pair_bases():
              "mode": "threshold", "val": 0.3}
         if kind == "JointRecurrenceNetwork":
             c.update(y=y12, lag=1)
-        out.append((c, {"set_" + k: [0.62, 0.27] for k in modes}))
+        mm = {"set_" + k: [0.62, 0.27] for k in modes}
+        if kind != "JointRecurrenceNetwork":
+            mm["assign_embedding"] = [0.31, 0.77]
+        out.append((c, mm))
+    out.append(({"family": "CrossRecurrencePlot", "x": x12, "y": y12[:9],
+                 "metric": "supremum", "val": 0.3},
+                {"set_threshold": [0.62, 0.27],
+                 "set_recurrence_rate": [0.4, 0.7],
+                 "assign_x_embedded": [0.31, 0.77],
+                 "assign_y_embedded": [0.52, 0.13]}))
+    out.append(({"family": "SequentialRecurrencePlot", "x": x12, "val": 0.3},
+                {"assign_threshold": [0.62, 0.27]}))
     out.append(({"family": "ResNetwork", "g": _G6,
                  "R": _attr6(6, False, 2)},
                 {"update_resistances": _VALS}))
